@@ -1,6 +1,7 @@
 (* C07  Results mirror the return annotation (rendering of the result list). *)
 From Coq Require Import List String Ascii ZArith Bool Permutation Sorting.Sorted. Import ListNotations.
 From SV Require Import Lib.Str Model.Types Model.Api Model.Back Proofs.MoreProofs.
+From SV Require Import Model.FrontSmall Model.View Model.Front Proofs.FrontProofs.
 
 (* "-> None": no results, and no marker either *)
 Theorem C07_none_no_results : forall classes rmap nc r t s,
@@ -23,7 +24,17 @@ Theorem C07_result_text_shape : forall classes rmap nc rs s x s',
   result_string classes rmap nc rs s = Ok (x, s') -> x = [] \/ (exists it, x = K" -> " ++ it).
 Proof. exact result_string_arity. Qed.
 
+(* ANALYZER SIDE: an annotated function has one result per element of an annotated tuple, in order, and exactly one result
+   carrying the translated type otherwise; every result id is <function id>/<result name> *)
+Theorem C07_front_annotated_results : forall env f fid rdocs rt u rs amb,
+  str_eqb (fn_name f) (K"__init__") = false -> annotated f = Some (rt, u) ->
+  parse_results env f fid rdocs = Ok (rs, amb) ->
+  exists t a, (match rt with MNone => Ok (none_named, false) | _ => mt2 env rt u end) = Ok (t, a) /\
+              map r_type rs = map Some (match t with TTuple ts => ts | _ => [t] end) /\
+              Forall (fun r => r_id r = fid ++ K"/" ++ r_name r) rs.
+Proof. exact annotated_results. Qed.
 Print Assumptions C07_none_no_results.
 Print Assumptions C07_result_items.
 Print Assumptions C07_none_suppresses_refuted.
 Print Assumptions C07_result_text_shape.
+Print Assumptions C07_front_annotated_results.
